@@ -62,8 +62,8 @@ def eval_case(case):
         exp = E.expected([(p, q)], [])
         if L.out("embedded_pairing_bls12_381_prepared_pairing", 576, E.g1[p], E.prep[q]) != exp:
             msgs.append("prepared_pairing != product model")
-        if L.out("embedded_pairing_bls12_381_pairing", 576, E.g1[p], E.g2[q]) != exp:
-            msgs.append("pairing != model")
+        # (the plain single pairing against the model is C01's check; it is not repeated here, so that a defect confined to the
+        # single-pairing entry point is reported under the property it violates)
         z = L.call("embedded_pairing_bls12_381_g2prepared_is_zero", E.prep[q]) & 1
         if z != (1 if q == "O" else 0):
             msgs.append("g2prepared_is_zero wrong")
